@@ -25,7 +25,7 @@ type C05CLIPlan struct {
 	FF    string    `json:"ff"`    // "", ff, no-ff, ff-only
 	Depth int       `json:"depth"` // extra commits on the moving side (1..3)
 	Fault *Fault    `json:"fault,omitempty"` // an object-store read fails during the merge: refused, or right
-	Via   string    `json:"via,omitempty"`   // "csv": a real merge goes `wrgl merge --no-commit` (result written to MERGE_<sums>.csv, rows from the sorter's row output) and then `wrgl merge --commit-csv <that file>`
+	Via   string    `json:"via,omitempty"`   // "nogui": first `wrgl merge --no-gui` (CONFLICTS_<sums>.csv: no conflict rows, the merge result behind an empty first cell), then the ordinary merge; "csv": a real merge goes `wrgl merge --no-commit` (result written to MERGE_<sums>.csv, rows from the sorter's row output) and then `wrgl merge --commit-csv <that file>`
 }
 
 func init() {
@@ -42,7 +42,7 @@ func init() {
 				p.Fault = &Fault{Op: Pick(r, []string{"get", "get", "read", "any"}), Prefix: Pick(r, []string{"blk/", "blk/", "blk/", "blkidx/", "tbl", "com/", ""}), Nth: r.Range(1, 14), Sticky: r.Chance(0.15)}
 			}
 			if r.Sub("via").Chance(0.6) && p.Fault == nil && p.FF != "ff-only" && (p.Shape == "diverged" || p.Shape == "sidemerge") {
-				p.Via = "csv"
+				p.Via = Pick(r.Sub("via-kind"), []string{"csv", "csv", "nogui"})
 			}
 			return p
 		},
@@ -183,13 +183,18 @@ func execC05CLI(t *testing.T, raw json.RawMessage, res *Result) {
 		args = append(args, "--"+p.FF)
 	}
 	if p.Via != "" {
-		if p.Via != "csv" || p.Fault != nil || p.FF == "ff-only" || (p.Shape != "diverged" && p.Shape != "sidemerge") {
+		if (p.Via != "csv" && p.Via != "nogui") || p.Fault != nil || p.FF == "ff-only" || (p.Shape != "diverged" && p.Shape != "sidemerge") {
 			res.Invalid("via")
 			return
 		}
 		// the two-step route: the merge result as a CSV file, then a merge commit made from that file
 		n.Clock += time.Hour
 		nc := []string{"merge", "main", "alt", "-n", "2", "--no-commit"}
+		pattern := "MERGE_*.csv"
+		if p.Via == "nogui" {
+			// conflicts (none: the edits are disjoint) and the rest of the merge result written to CONFLICTS_<sums>.csv
+			nc, pattern = []string{"merge", "main", "alt", "-n", "2", "--no-gui"}, "CONFLICTS_*.csv"
+		}
 		r0 := n.Run(t, nc...)
 		if bubbleProblems(res, r0.Out, "wrgl "+strings.Join(nc, " ")) {
 			return
@@ -202,9 +207,9 @@ func execC05CLI(t *testing.T, raw json.RawMessage, res *Result) {
 			res.Violate("no-commit-moved-ref", "`wrgl %s` changed the refs", strings.Join(nc, " "))
 			return
 		}
-		files, _ := filepath.Glob(filepath.Join(n.Root, "MERGE_*.csv"))
+		files, _ := filepath.Glob(filepath.Join(n.Root, pattern))
 		if len(files) != 1 {
-			res.Violate("no-commit-no-file", "`wrgl %s` left %d MERGE_*.csv files in the working directory\n%s", strings.Join(nc, " "), len(files), r0.Stdout)
+			res.Violate("no-commit-no-file", "`wrgl %s` left %d MERGE_ / CONFLICTS_*.csv files in the working directory\n%s", strings.Join(nc, " "), len(files), r0.Stdout)
 			return
 		}
 		text, err := os.ReadFile(files[0])
@@ -213,6 +218,28 @@ func execC05CLI(t *testing.T, raw json.RawMessage, res *Result) {
 			return
 		}
 		fcols, frows, err := ParseCSV(text, ',')
+		if p.Via == "nogui" && err == nil {
+			// layout: ["", columns...], one "COLUMNS IN <branch>" row per branch, conflicts labelled by branch, then
+			// the rows merged without conflict behind an empty first cell
+			if len(fcols) == 0 || fcols[0] != "" {
+				res.Violate("no-commit-file-wrong", "%s: header %q does not start with an empty cell", filepath.Base(files[0]), fcols)
+				return
+			}
+			fcols = fcols[1:]
+			var rest [][]string
+			for _, r := range frows {
+				switch {
+				case len(r) == 0:
+				case strings.HasPrefix(r[0], "COLUMNS IN "):
+				case r[0] != "":
+					res.Violate("spurious-conflict", "`wrgl %s` with disjoint edits lists a conflict row %s", strings.Join(nc, " "), clip(r))
+					return
+				default:
+					rest = append(rest, r[1:])
+				}
+			}
+			frows = rest
+		}
 		if err != nil || len(fcols) != len(cols) {
 			res.Violate("no-commit-file-wrong", "%s: columns %q (err %v), want %q", filepath.Base(files[0]), fcols, err, cols)
 			return
@@ -240,8 +267,12 @@ func execC05CLI(t *testing.T, raw json.RawMessage, res *Result) {
 			res.Violate("merge-file-"+c, "`wrgl %s` with main %s alt: the rows of %s are not the merge result: %s", strings.Join(nc, " "), p.Shape, filepath.Base(files[0]), d)
 			return
 		}
-		res.probe("merge_no_commit_then_commit_csv", 1)
-		args = []string{"merge", "main", "alt", "-n", "2", "--commit-csv", files[0]}
+		if p.Via == "nogui" {
+			res.probe("merge_no_gui_conflicts_file", 1) // the ordinary merge follows
+		} else {
+			res.probe("merge_no_commit_then_commit_csv", 1)
+			args = []string{"merge", "main", "alt", "-n", "2", "--commit-csv", files[0]}
+		}
 	}
 	n.Clock += time.Hour
 	if p.Fault != nil {
